@@ -137,7 +137,10 @@ def judge_m2c(c, m, light):
     J = Judge()
     ns, nf, nnz = c["ns"], c["nf"], c["nnz"]
     base = np.array(c["msk"], np.int64).reshape(ns, nf)
-    variants = [("int8", np.int8, 1), ("bool", bool, 1), ("uint8x2", np.uint8, 2), ("int8x127", np.int8, 127)]
+    # "any mask": signed and unsigned, true values with and without the top bit (255 / 128 are what image masks hold)
+    variants = [("int8", np.int8, 1), ("bool", bool, 1), ("uint8x2", np.uint8, 2), ("int8x127", np.int8, 127),
+                ("uint8x255", np.uint8, 255), ("uint8x128", np.uint8, 128)]     # (negative masks are outside the domain:
+    # from_data_mask counts mask > 0 while the kernel tests != 0)
     for vname, dt, val in (variants[:1] if light else variants):
         msk = (base * val).astype(dt)
         # the two omp loops: 2 and 4 threads on the first variant (any row order must give the same arrays)
